@@ -261,6 +261,13 @@ func (fe *FuncEnc) callCommon(v ssa.Value, c *ssa.CallCommon, st *State, args []
 		fe.usedAssumed[contract.FullName()] = true
 	}
 	fe.applyContract(v, contract, sig, paramNames, args, st, pos, hint, callee)
+	if fe.sc.taint && callee != nil && v != nil && fnFullName(callee) == "github.com/zclconf/go-cty/cty.(Value).AsString" {
+		// taint rule (also applied when AsString has a contract): the content of a value may
+		// be shown only if the value is known to carry no marks
+		fe.eng.sorts.extra(fmt.Sprintf("(declare-fun sf_plain (%s) Bool)", fe.sorts().sortOf(c.Args[0].Type())))
+		fe.assume(st, implies("(sf_plain "+fe.val(c.Args[0])+")", "(sf_clean "+fe.val(v)+")"))
+		fe.usedAssumed["github.com/zclconf/go-cty/cty.(Value).AsString (taint rule: clean only for a value known to be unmarked)"] = true
+	}
 	if fe.sc.taint && callee != nil && v != nil && fe.eng.cleanResult[fnFullName(callee)] && sig.Results().Len() == 1 {
 		// a function under contract whose string result is also declared clean (taint.spec)
 		if b, ok := sig.Results().At(0).Type().Underlying().(*types.Basic); ok && b.Kind() == types.String {
